@@ -41,7 +41,8 @@ void cv_on_throw(var obj) { ASSERT(obj == OutOfMemoryError, "no exception from t
 static int cv_recurse_calls; static var cv_recurse_arg; static int cv_recurse_q;
 void cv_recurse(struct GC* gc, var ptr) { cv_recurse_calls++; cv_recurse_arg = ptr; if (ptr == gh_q) cv_recurse_q++; }
 static int cv_resize_less_calls, cv_resize_more_calls, cv_mark_calls, cv_sweep_calls, cv_seq_bad;
-void cv_resize_less(struct GC* gc) { cv_resize_less_calls++; }
+static size_t cv_resize_less_items;
+void cv_resize_less(struct GC* gc) { cv_resize_less_calls++; cv_resize_less_items = gc->nitems; }
 void cv_resize_more(struct GC* gc) { cv_resize_more_calls++; }
 void cv_mark_stub(struct GC* gc) { cv_mark_calls++; if (cv_sweep_calls) cv_seq_bad++; }
 void cv_sweep_stub(struct GC* gc) { cv_sweep_calls++; if (cv_mark_calls != 1) cv_seq_bad++; }
@@ -226,7 +227,7 @@ void h_gc_rem(void) {
   COVER(!was_running && old_has_p, "del while the collector is stopped"); COVER(was_running && old_has_p, "del while running");
   GC_Rem(gc, in_p);
   ASSERT(!old_has_p || (cv_destructs == 1 && cv_deallocs == 1 && !view(gc, NS, in_p, NULL, NULL)), "[C06] del of a managed object finalises and releases it exactly once, whether the collector is running or stopped");
-  ASSERT(!was_running || (cv_resize_less_calls == 1 && gc->mitems == gc->nitems + gc->nitems / 2 + 1), "shrinking is checked after the removal");
+  ASSERT(!was_running || (cv_resize_less_calls == 1 && cv_resize_less_items == gc->nitems && gc->mitems == gc->nitems + gc->nitems / 2 + 1), "[C17] shrinking is checked after the removal has been counted");
 }
 void h_gc_del(void) {
   arbitrary_gc();
